@@ -33,6 +33,9 @@ rule("C07.k", "an index of one space (variable / mapping row / time step / restr
 rule("C08.f", "a sum of step lengths over the steps of selected mapping rows first reduces the rows to distinct steps (rows are not "
               "steps: two variables per step would count every step twice)", floor=1, props=["C08", "C02"])
 
+rule("C15.n", "the previous solution handed to a fixed window may be longer than the problem (the split set-up passes the rest of x to every "
+              "interval, an SLP solution carries the copies of the future variables): it is addressed by variable *label*, or cut to the number of "
+              "variables before a boolean mask of that length is applied to it", floor=1)
 rule("C08.m", "the period of a take restriction is the period the user gave: start and end of the dictionary handed to define_restr are not "
               "re-written from the grid or the asset's window (a period cut at the end of the contract or the horizon is prorated over the "
               "shorter span: the quantity inside the horizon is no longer value x covered / (end - start))", floor=2)
@@ -377,7 +380,7 @@ def _rule_for(fn) -> str:
     return "C07.k"
 
 
-@analysis("spaces", ["C15.a", "C15.f", "C13.b", "C04.a", "C07.k", "C08.f", "C08.g", "C08.k", "C08.m"])
+@analysis("spaces", ["C15.a", "C15.f", "C13.b", "C04.a", "C07.k", "C08.f", "C08.g", "C08.k", "C08.m", "C15.n"])
 def run(ctx):
     p = ctx.p
     counts = {}
@@ -534,6 +537,40 @@ def run(ctx):
                "the fix-window branch no longer writes l[...] / u[...]: nothing is pinned", node=fix_if[0])
     elif counts.get("C15.a", 0) == 0:
         ctx.ob("C15.a", pfn, "selector of %s" % au.short(pins[0], 50), None, "the selector of the pinned bounds could not be typed", node=pins[0])
+    # C15.n: a longer previous solution
+    ffp = ctx.flow(pfn)
+    n_n = 0
+    for s2 in au.walk_stmts(fix_if[0].body):
+        if not (isinstance(s2, ast.Assign) and isinstance(s2.targets[0], ast.Subscript) and isinstance(s2.value, ast.Subscript)
+                and isinstance(s2.value.slice, ast.Name) and au.U(s2.value.slice) == au.U(s2.targets[0].slice)):
+            continue
+        sel, src = s2.value.slice, s2.value.value
+        n_n += 1
+        ds = [d for d in ffp.defs(sel.id, s2) if d.kind == "assign" and d.value is not None]
+        is_mask = bool(ds) and all(isinstance(d.value, ast.Call) and au.method_name(d.value) in ("zeros", "ones", "full", "zeros_like", "isin", "in1d") and (
+            "bool" in au.U(d.value) or au.method_name(d.value) in ("isin", "in1d")) for d in ds)
+        if not is_mask:
+            ctx.ob("C15.n", pfn, au.short(s2, 70), True, ok_detail="addressed by variable label", node=s2)
+            continue
+        cut = False
+        if isinstance(src, ast.Name):
+            for d in ffp.defs(src.id, s2):
+                v = d.value
+                if d.kind == "assign" and isinstance(v, ast.Subscript) and isinstance(v.slice, ast.Slice) and v.slice.upper is not None and au.base_name(v) == src.id:
+                    cut = True
+                else:
+                    if not (d.kind == "assign" and isinstance(v, ast.Subscript) and au.const_str(v.slice) is not None):
+                        pass
+            # every reaching definition must be the cut one, or the cut is unconditional
+            defs_ = list(ffp.defs(src.id, s2))
+            # the conditional form `if len(x) > n: x = x[0:n]` leaves the uncut definition reaching too (then len(x) == n by the size assertion)
+            cut = any(d.kind == "assign" and isinstance(d.value, ast.Subscript) and isinstance(d.value.slice, ast.Slice) and d.value.slice.upper is not None for d in defs_)
+        ctx.ob("C15.n", pfn, au.short(s2, 70), cut,
+               "%s is subscripted with the boolean mask %s, which has one entry per variable of *this* problem, but only `len(%s) >= number of "
+               "variables` is guaranteed: the split set-up hands every interval the rest of the previous solution (IndexError: boolean index did "
+               "not match - size 576 vs 144), a solution of make_slp carries the sample copies" % (au.short(src, 30), sel.id, au.short(src, 30)), node=s2)
+    if n_n == 0:
+        ctx.ob("C15.n", pfn, "pinning statements", None, "no statement <bounds>[sel] = <previous solution>[sel] found in the fix-window branch")
     # C15.f: membership is tested on every row
     ty = Typer(ctx, pfn)
     found = False
